@@ -28,6 +28,7 @@ import (
 	policyapi "github.com/containers/nri-plugins/pkg/resmgr/policy"
 	"github.com/containers/nri-plugins/pkg/verif/mc"
 	"github.com/containers/nri-plugins/pkg/verif/sysgen"
+	"github.com/containers/nri-plugins/pkg/verif/vos"
 )
 
 const (
@@ -93,6 +94,8 @@ type menu struct {
 	podStop, podRemove, podRun                bool
 	reconf                                    []int // configuration indices offered as reconf:<k>
 	illFormed                                 bool  // also offer out-of-order lifecycle events
+	restartTruth                              bool  // offer restarts with a changed runtime truth (containers/pods gone, stopped, new)
+	restartCuts                               bool  // offer restarts from a cache saved in the middle of the last request
 }
 
 // ---------------------------------------------------------------------------
@@ -439,9 +442,14 @@ type exec struct {
 	addr     []addressed // every adjustment/update addressed to a container, for C12
 	last     *reply
 	restarts int
+	prevTarget *wctr // target container of the previous event
+	cutAfter   string // kind of the request a restartcut interrupted
 	addrMark  int               // index into addr where the last event started
 	cfgBefore int               // configuration index before the last event
 	preSnap   *snap             // snapshot before the last event
+	lastSaves  [][]byte       // cache file content after every save made by the last event
+	lastKind   string         // kind of the last event
+	extraPod   *wpod          // a pod+container the runtime created while the plugin was down
 	rejected   []int          // indices (in the executed trace, prefix excluded) of configuration updates that were refused
 	evIndex    int            // index of the event being executed, -1 during the prefix
 	toldBefore map[string]res // told-view of every container before the last event
@@ -511,9 +519,23 @@ func (x *exec) applyUpdates(ev string, kind string, ups []*api.ContainerUpdate, 
 // step executes one event. It returns false if the event is not applicable in the current world state.
 func (x *exec) step(ev string) *reply {
 	rp := &reply{ev: ev}
+	if x.last != nil {
+		x.prevTarget = x.last.target
+	}
 	x.last = rp
 	x.addrMark = len(x.addr)
 	x.cfgBefore = x.w.cfgIdx
+	prevSaves, prevKind := x.lastSaves, x.lastKind
+	x.lastSaves, x.lastKind = nil, strings.Split(ev, ":")[0]
+	cacheFile := filepath.Join(x.dir, "cache")
+	vos.After = func(op *vos.Op) {
+		if op.Kind == "rename" && op.To == cacheFile {
+			if data, err := os.ReadFile(cacheFile); err == nil {
+				x.lastSaves = append(x.lastSaves, data)
+			}
+		}
+	}
+	defer func() { vos.After = nil }()
 	x.toldBefore = map[string]res{}
 	for id, c := range x.w.byID {
 		x.toldBefore[id] = c.told
@@ -645,9 +667,65 @@ func (x *exec) step(ev string) *reply {
 			}
 			x.applyUpdates(ev, "push", rp.pushed, "")
 		}
-	case "restart":
+	case "restart", "restartcut":
 		// a new plugin instance on the same state directory, then the runtime's Synchronize
 		x.restarts++
+		if f[0] == "restartcut" {
+			x.cutAfter = prevKind
+			// the plugin died in the middle of the previous request: the state directory holds an intermediate save
+			var k int
+			fmt.Sscanf(f[1], "%d", &k)
+			if k < len(prevSaves) {
+				os.WriteFile(cacheFile, prevSaves[k], 0o644)
+			}
+			if prevKind == "create" && x.prevTarget != nil && x.prevTarget.life == lifeCreated {
+				// the runtime aborts a container whose creation the plugin never answered
+				x.prevTarget.life = lifeRemoved
+			}
+		}
+		for _, variant := range f[1:] {
+			switch {
+			case f[0] == "restartcut":
+			case variant == "allgone":
+				for _, c := range w.ctrs {
+					if c.life != lifeNone {
+						c.life = lifeRemoved
+					}
+				}
+			case strings.HasPrefix(variant, "gone="):
+				if c := w.ctr(strings.TrimPrefix(variant, "gone=")); c != nil && c.life != lifeNone {
+					c.life = lifeRemoved
+				}
+			case strings.HasPrefix(variant, "stopped="):
+				if c := w.ctr(strings.TrimPrefix(variant, "stopped=")); c != nil && c.live() {
+					c.life = lifeStopped
+				}
+			case strings.HasPrefix(variant, "podgone="):
+				if pod := w.pod(strings.TrimPrefix(variant, "podgone=")); pod != nil {
+					pod.life = lifeRemoved
+					for _, c := range pod.ctrs {
+						if c.life != lifeNone {
+							c.life = lifeRemoved
+						}
+					}
+				}
+			case variant == "new":
+				// the runtime created one more pod and container while the plugin was down
+				for _, c := range w.ctrs {
+					if c.life == lifeNone && c.pod.life == lifeRunning {
+						t := c.spec.t
+						c.req = updSpec{cpuReq: t.cpuReq, cpuLim: t.cpuLim, memLim: t.memLim}
+						c.init = resFromNRI(encodeRes(c.req, res{Cpus: t.initCpus, Mems: t.initMems}))
+						c.told = c.init
+						w.rank++
+						c.rank = w.rank
+						c.life = lifeRunning
+						w.byID[c.id()] = c
+						break
+					}
+				}
+			}
+		}
 		in, err := newInstRestart(x)
 		if err != nil {
 			rp.err = fmt.Errorf("restart failed: %w", err)
@@ -777,6 +855,37 @@ func (x *exec) enabled() []string {
 	if m.restart && x.restarts < 2 {
 		evs = append(evs, "restart")
 	}
+	if m.restartTruth && x.restarts < 2 {
+		anyLive, anyNone := false, false
+		for _, c := range x.w.ctrs {
+			if c.live() {
+				anyLive = true
+				evs = append(evs, "restart:gone="+c.slot, "restart:stopped="+c.slot)
+			}
+			if c.life == lifeNone && c.pod.life == lifeRunning {
+				anyNone = true
+			}
+		}
+		if anyLive {
+			evs = append(evs, "restart:allgone")
+			for _, p := range x.w.pods {
+				for _, c := range p.ctrs {
+					if c.live() {
+						evs = append(evs, "restart:podgone="+p.slot)
+						break
+					}
+				}
+			}
+		}
+		if anyNone {
+			evs = append(evs, "restart:new")
+		}
+	}
+	if m.restartCuts && x.restarts < 2 && (x.lastKind == "create" || x.lastKind == "stop") {
+		for k := 0; k+1 < len(x.lastSaves); k++ {
+			evs = append(evs, fmt.Sprintf("restartcut:%d", k))
+		}
+	}
 	return evs
 }
 
@@ -836,6 +945,9 @@ func (x *exec) snapshot() *snap {
 	}
 	for _, c := range all {
 		s.World = append(s.World, fmt.Sprintf("%s=%s/%d/%+v/%+v", c.id(), lifeNames[c.life], c.rank, c.told, c.req))
+	}
+	if x.scn.menu.restartCuts {
+		s.World = append(s.World, fmt.Sprintf("last=%s/%d", x.lastKind, len(x.lastSaves)))
 	}
 	if x.in.dead {
 		return s
